@@ -404,3 +404,12 @@ Proof.
   - intros i Hi. apply klle_M_row_sums; assumption.
   - intros i Hi. apply kltsa_M_row_sums; assumption.
 Qed.
+
+Lemma main_perm_laplacian_eigenmaps : forall F (Fo : FieldOps F) (Ff : IsField F) n k d p q nb
+    (h h' : nat -> nat -> F) (V : mat F) lam,
+  0 < n -> is_bij n p q -> uniform_rows n k nb -> rows_in_range n nb ->
+  (forall a b, a < n -> b < n -> h' (p a) (p b) = h a b) ->
+  geig_answer n d (lap_L n nb h) (mdiag (lap_D n nb h)) V lam ->
+  geig_answer n d (lap_L n (pnbrs p q nb) h') (mdiag (lap_D n (pnbrs p q nb) h')) (perm_rows q V) lam /\
+  rows_permuted n d q V (perm_rows q V).
+Proof. intros F Fo Ff. exact (@laplacian_eigenmaps_perm F Fo Ff). Qed.
